@@ -25,6 +25,10 @@ enum Parent {
     Bv(BitsDesc),
     Sparse(BitsDesc),
     Rl(BitsDesc),
+    /// The same structures after serialize + load.
+    BvLoaded(BitsDesc),
+    SparseLoaded(BitsDesc),
+    RlLoaded(BitsDesc),
     Multi { universe: usize, values: Vec<usize> },
     Int { width: usize, values: Vec<u64> },
     Wm(Vec<u64>),
@@ -195,51 +199,80 @@ fn explore_parent(ctx: &mut Ctx, parent: &Parent, depth: usize, pos_depth: usize
     let only: Option<Vec<Act>> = want.map(|(_, a)| a.clone());
     let sel = |s: &Start| want.map(|(w, _)| w == s).unwrap_or(true);
     ctx.announce(|| json!({"parent": parent}));
-    ctx.sample_tagged(match parent { Parent::Bv(_) => "BitVector", Parent::Sparse(_) => "SparseVector", Parent::Rl(_) => "RLVector", Parent::Multi { .. } => "multiset", Parent::Int { .. } => "IntVector", Parent::Wm(_) => "WaveletMatrix" }, || json!({"parent": parent}));
+    ctx.sample_tagged(match parent { Parent::Bv(_) => "BitVector", Parent::Sparse(_) => "SparseVector", Parent::Rl(_) => "RLVector", Parent::BvLoaded(_) => "BitVector(loaded)", Parent::SparseLoaded(_) => "SparseVector(loaded)", Parent::RlLoaded(_) => "RLVector(loaded)", Parent::Multi { .. } => "multiset", Parent::Int { .. } => "IntVector", Parent::Wm(_) => "WaveletMatrix" }, || json!({"parent": parent}));
     match parent {
-        Parent::Bv(d) | Parent::Sparse(d) | Parent::Rl(d) => {
+        Parent::Bv(d) | Parent::Sparse(d) | Parent::Rl(d) | Parent::BvLoaded(d) | Parent::SparseLoaded(d) | Parent::RlLoaded(d) => {
             let m = d.model();
             let bools = m.to_bools();
             let ones: Vec<(usize, usize)> = m.positions().into_iter().enumerate().map(|(r, p)| (r, p as usize)).collect();
             let zeros: Vec<(usize, usize)> = m.zero_positions().into_iter().enumerate().map(|(r, p)| (r, p as usize)).collect();
             let len = m.len as usize;
+            // Starting points: every rank and position for small parents; for large ones the run edges +-1, a
+            // uniform grid and the ends.
+            let pick = |count: usize, marks: &[usize]| -> Vec<usize> {
+                if count <= 300 {
+                    return (0..=count + 1).collect();
+                }
+                let mut v: Vec<usize> = vec![0, 1, count - 1, count, count + 1];
+                for &m in marks {
+                    v.extend([m.saturating_sub(1), m, m + 1]);
+                }
+                for i in 0..=48 {
+                    v.push(count / 48 * i);
+                }
+                v.retain(|&x| x <= count + 1);
+                v.sort_unstable();
+                v.dedup();
+                v
+            };
+            let edge_pos: Vec<usize> = m.runs.iter().flat_map(|&(s, l)| [s as usize, (s + l) as usize]).take(200).collect();
+            let one_marks: Vec<usize> = { let mut c = 0usize; m.runs.iter().map(|&(_, l)| { c += l as usize; c }).take(100).collect() };
+            let starts_v = pick(len, &edge_pos);
+            let starts_r = pick(ones.len(), &one_marks);
+            let starts_z = pick(zeros.len(), &[]);
             let pred_ref = |v: usize| -> Vec<(usize, usize)> { match m.pred(v as u128) { Some((r, _)) => ones[r as usize..].to_vec(), None => vec![] } };
             let succ_ref = |v: usize| -> Vec<(usize, usize)> { match m.succ(v as u128) { Some((r, _)) => ones[r as usize..].to_vec(), None => vec![] } };
             match parent {
-                Parent::Bv(_) => {
-                    let bv = bv_from_model(&m);
+                Parent::Bv(_) | Parent::BvLoaded(_) => {
+                    let mut bv = bv_from_model(&m);
+                    if matches!(parent, Parent::BvLoaded(_)) {
+                        bv = from_bytes(&to_bytes(&bv)).expect("harness: a serialized bitvector does not load (reported by C06)");
+                    }
                     if sel(&Start::Iter) { run(ctx, parent, Start::Iter, "BitVector.iter", true, depth, &only, bv.iter(), bools.clone(), Some(&de)); }
                     if sel(&Start::OneIter) { run(ctx, parent, Start::OneIter, "BitVector.one_iter", true, depth, &only, bv.one_iter(), ones.clone(), Some(&de)); }
                     if sel(&Start::ZeroIter) { run(ctx, parent, Start::ZeroIter, "BitVector.zero_iter", true, depth, &only, bv.zero_iter(), zeros.clone(), Some(&de)); }
-                    for r in 0..=ones.len() + 1 {
+                    for &r in &starts_r {
                         let s = Start::SelectIter(r);
                         if sel(&s) { run(ctx, parent, s, "BitVector.select_iter", true, pos_depth, &only, bv.select_iter(r), ones.get(r..).unwrap_or(&[]).to_vec(), Some(&de)); }
                     }
-                    for r in 0..=zeros.len() + 1 {
+                    for &r in &starts_z {
                         let s = Start::SelectZeroIter(r);
                         if sel(&s) { run(ctx, parent, s, "BitVector.select_zero_iter", true, pos_depth, &only, bv.select_zero_iter(r), zeros.get(r..).unwrap_or(&[]).to_vec(), Some(&de)); }
                     }
-                    for v in 0..=len + 1 {
+                    for &v in &starts_v {
                         let s = Start::Pred(v);
                         if sel(&s) { run(ctx, parent, s, "BitVector.predecessor", true, pos_depth, &only, bv.predecessor(v), pred_ref(v), Some(&de)); }
                         let s = Start::Succ(v);
                         if sel(&s) { run(ctx, parent, s, "BitVector.successor", true, pos_depth, &only, bv.successor(v), succ_ref(v), Some(&de)); }
                     }
                 }
-                Parent::Sparse(_) => {
-                    let sv = sparse_from_model(&m).expect("harness: sparse builder refused a valid set");
+                Parent::Sparse(_) | Parent::SparseLoaded(_) => {
+                    let mut sv = sparse_from_model(&m).expect("harness: sparse builder refused a valid set");
+                    if matches!(parent, Parent::SparseLoaded(_)) {
+                        sv = from_bytes(&to_bytes(&sv)).expect("harness: a serialized sparse vector does not load (reported by C06)");
+                    }
                     if sel(&Start::Iter) { run(ctx, parent, Start::Iter, "SparseVector.iter", true, depth, &only, sv.iter(), bools.clone(), Some(&de)); }
                     if sel(&Start::OneIter) { run(ctx, parent, Start::OneIter, "SparseVector.one_iter", true, depth, &only, sv.one_iter(), ones.clone(), Some(&de)); }
                     if sel(&Start::ZeroIter) { run(ctx, parent, Start::ZeroIter, "SparseVector.zero_iter", true, depth, &only, sv.zero_iter(), zeros.clone(), None); }
-                    for r in 0..=ones.len() + 1 {
+                    for &r in &starts_r {
                         let s = Start::SelectIter(r);
                         if sel(&s) { run(ctx, parent, s, "SparseVector.select_iter", true, pos_depth, &only, sv.select_iter(r), ones.get(r..).unwrap_or(&[]).to_vec(), Some(&de)); }
                     }
-                    for r in 0..=zeros.len() + 1 {
+                    for &r in &starts_z {
                         let s = Start::SelectZeroIter(r);
                         if sel(&s) { run(ctx, parent, s, "SparseVector.select_zero_iter", true, pos_depth, &only, sv.select_zero_iter(r), zeros.get(r..).unwrap_or(&[]).to_vec(), None); }
                     }
-                    for v in 0..=len + 1 {
+                    for &v in &starts_v {
                         let s = Start::Pred(v);
                         if sel(&s) { run(ctx, parent, s, "SparseVector.predecessor", true, pos_depth, &only, sv.predecessor(v), pred_ref(v), Some(&de)); }
                         let s = Start::Succ(v);
@@ -247,21 +280,24 @@ fn explore_parent(ctx: &mut Ctx, parent: &Parent, depth: usize, pos_depth: usize
                     }
                 }
                 _ => {
-                    let rl = rl_from_model(&m).expect("harness: rl builder refused a valid run list");
+                    let mut rl = rl_from_model(&m).expect("harness: rl builder refused a valid run list");
+                    if matches!(parent, Parent::RlLoaded(_)) {
+                        rl = from_bytes(&to_bytes(&rl)).expect("harness: a serialized run-length vector does not load (reported by C06)");
+                    }
                     let runs: Vec<(usize, usize)> = m.runs.iter().map(|&(s, l)| (s as usize, l as usize)).collect();
                     if sel(&Start::Iter) { run(ctx, parent, Start::Iter, "RLVector.iter", true, depth, &only, rl.iter(), bools.clone(), None); }
                     if sel(&Start::OneIter) { run(ctx, parent, Start::OneIter, "RLVector.one_iter", true, depth, &only, rl.one_iter(), ones.clone(), None); }
                     if sel(&Start::ZeroIter) { run(ctx, parent, Start::ZeroIter, "RLVector.zero_iter", true, depth, &only, rl.zero_iter(), zeros.clone(), None); }
                     if sel(&Start::RunIter) { run(ctx, parent, Start::RunIter, "RLVector.run_iter", false, depth, &only, rl.run_iter(), runs, None); }
-                    for r in 0..=ones.len() + 1 {
+                    for &r in &starts_r {
                         let s = Start::SelectIter(r);
                         if sel(&s) { run(ctx, parent, s, "RLVector.select_iter", true, pos_depth, &only, rl.select_iter(r), ones.get(r..).unwrap_or(&[]).to_vec(), None); }
                     }
-                    for r in 0..=zeros.len() + 1 {
+                    for &r in &starts_z {
                         let s = Start::SelectZeroIter(r);
                         if sel(&s) { run(ctx, parent, s, "RLVector.select_zero_iter", true, pos_depth, &only, rl.select_zero_iter(r), zeros.get(r..).unwrap_or(&[]).to_vec(), None); }
                     }
-                    for v in 0..=len + 1 {
+                    for &v in &starts_v {
                         let s = Start::Pred(v);
                         if sel(&s) { run(ctx, parent, s, "RLVector.predecessor", true, pos_depth, &only, rl.predecessor(v), pred_ref(v), None); }
                         let s = Start::Succ(v);
@@ -355,6 +391,25 @@ fn explore(ctx: &mut Ctx) {
             parents.push(Parent::Bv(BitsDesc::Runs { pairs: pairs.clone(), tail: 2 }));
             parents.push(Parent::Sparse(BitsDesc::Runs { pairs, tail: 2 }));
         }
+    }
+    // Loaded structures hand out the same iterators: all parents of <= 4 bits and many-block / multi-superblock
+    // parents after serialize + load (the rebuilt indexes of a loaded vector are separate code).
+    for len in 0..=4usize {
+        for word in 0..(1u64 << len) {
+            let d = BitsDesc::Word { len, word };
+            parents.push(Parent::BvLoaded(d.clone()));
+            parents.push(Parent::SparseLoaded(d.clone()));
+            parents.push(Parent::RlLoaded(d));
+        }
+    }
+    {
+        // ~20 blocks of short runs, then a long gap and a final run
+        let mut pairs: Vec<(u64, u64)> = (0..640u64).map(|i| (1 + i % 3, 1 + i % 2)).collect();
+        pairs.push((5000, 3));
+        parents.push(Parent::RlLoaded(BitsDesc::Runs { pairs: pairs.clone(), tail: 9 }));
+        parents.push(Parent::Rl(BitsDesc::Runs { pairs: pairs.clone(), tail: 9 }));
+        parents.push(Parent::SparseLoaded(BitsDesc::Runs { pairs: pairs.clone(), tail: 9 }));
+        parents.push(Parent::BvLoaded(BitsDesc::Runs { pairs, tail: 9 }));
     }
     // Multisets: every non-decreasing list of <= k values over universes <= u.
     let (u_max, k_max) = if thorough { (6, 6) } else { (5, 5) };
